@@ -34,6 +34,7 @@ func drawC08(t *rapid.T) C08Case {
 		if m.Hdr != nil && len(m.Hdr.Extra) > 300 {
 			m.Hdr.Extra = m.Hdr.Extra[:300]
 		}
+		m.HCRC = rapid.IntRange(0, 3).Draw(t, "hcrc") == 0
 		c.Members = append(c.Members, m)
 	}
 	c.Mode = rapid.SampledFrom([]string{"A", "B", "B"}).Draw(t, "mode")
@@ -208,7 +209,13 @@ func buildMembersReused(ms []Member) (z []byte, bounds []int, payload []byte, er
 		if e := writeMemberOps(w, m.Data.Bytes(), m.Ops); e != nil {
 			return nil, nil, nil, fmt.Errorf("member %d: %v", i+1, e)
 		}
-		z = append(z, b.Bytes()...)
+		mz := b.Bytes()
+		if m.HCRC {
+			if mz, err = addHeaderCRC(mz); err != nil {
+				return nil, nil, nil, err
+			}
+		}
+		z = append(z, mz...)
 		bounds = append(bounds, len(z))
 		payload = append(payload, m.Data.Bytes()...)
 	}
